@@ -130,8 +130,9 @@ let () =
       let out = if k = "W" then SemModel.wait_model script else SemModel.try_wait_model script in
       let (txt, calls) = show_outcome out in
       let s = match spec_status ints with None -> "blocked" | Some "*" -> "*" | Some x -> "st=" ^ x in
-      Printf.printf "M %s || calls=%d\nS %s\n" txt calls s
-    | ["D"; clk; now_s; now_ns; s; ns; scr] ->
+      Printf.printf "M %s || calls=%d unexp=-\nS %s\n" txt calls s
+    | "D" :: clk :: now_s :: now_ns :: s :: ns :: scr :: _ ->
+      (* an optional last field is the real count of the semaphore: the prescribed calls do not depend on it *)
       let ints = script_of scr in
       let script = List.map kres_of_int ints in
       let (out, dl) = SemModel.timed_wait_model (kres_of_int (int_of_string clk))
@@ -148,7 +149,7 @@ let () =
           (match spec_status ints with None -> "blocked" | Some "*" -> "*" | Some x -> "st=" ^ x),
           Printf.sprintf "%d.%d" sec (total mod 1_000_000_000)
         end in
-      Printf.printf "M %s dl=%s || calls=%d same=1 clk=1/0\nS %s dl=%s\n" txt dltxt calls sst sdl
+      Printf.printf "M %s dl=%s || calls=%d same=1 clk=1/0 unexp=-\nS %s dl=%s\n" txt dltxt calls sst sdl
     | ["I"; init; progs; sched] ->
       let (m, s) = lockstep (int_of_string init) (progs_of progs) (String.split_on_char ',' sched) in
       Printf.printf "M %s\nS %s\n" m s
@@ -158,6 +159,16 @@ let () =
       let w = i nw * i waits and p = i np * i posts in
       let s = if w <= i init + p then Printf.sprintf "succ=%d left=%d neg=0 errs=0" w (i init + p - w) else "*" in
       Printf.printf "M %s\nS %s\n" m s
+    | ["Q"; _] ->
+      (* the competitor's try_wait takes the only unit, then the timed wait expires on a zero count *)
+      let open SemModel in
+      let st = run [Run (S O); Expire O] (init_sys (S O) [[OTimed]; [OTry]]) in
+      let res i = match (List.nth st.s_threads i).t_log with ((_, s), _) :: _ -> sname s | [] -> "none" in
+      let sp = SemSpec.spec_run [SemSpec.SRun (S O, false); SemSpec.SRun (O, true)]
+          (SemSpec.spec_init (S O) [[SemSpec.STimed]; [SemSpec.STry]]) in
+      let sres i = match (List.nth sp.SemSpec.sp_threads i).SemSpec.st_done with
+        | (_, r) :: _ -> sres_name r | [] -> "none" in
+      Printf.printf "M st=%s try=%s late=0\nS st=%s try=%s late=0\n" (res 0) (res 1) (sres 0) (sres 1)
     | ["R"; _; _; post] ->
       let open SemModel in
       let st =
